@@ -226,6 +226,8 @@ def coq_deps(vfile, seen=None):
             p = mod.replace(".", "/") + ".v"
             if os.path.exists(os.path.join(COQ, p)):
                 coq_deps(p, seen)
+            elif p.startswith("Gen/") and p not in seen:
+                seen.append(p)  # generated, not there yet (fresh alternate checkout): proof_obligations regenerates it
     for m in re.finditer(r"Require\s+(?:Import|Export)?\s*((?:RC\.[A-Za-z0-9_.]+\s*)+)\.(?=\s)", src):
         for mod in m.group(1).split():
             p = mod[3:].replace(".", "/") + ".v"
@@ -258,6 +260,10 @@ def count_obligations(files):
     return names, bad
 
 
+GEN_TRANSLATOR = {"UnitTables": "units", "CostConsts": "cost", "TurnTable": "turn", "CostRates": "costrates",
+                  "Haversine": "haversine", "SinkFormat": "sinkformat", "Soc": "soc", "StateFeature": "statefeature"}
+
+
 def proof_obligations(prop, extra_targets=(), extra_props=()):
     """Build Props/<prop>.vo (forcing the Props file itself to recompile so that its
     Print Assumptions output is in the log). Returns a dict describing the proof side."""
@@ -281,6 +287,14 @@ def proof_obligations(prop, extra_targets=(), extra_props=()):
         else:
             res["broken"].append("missing " + ep)
     res["files"] = files
+    # every generated table in the dependency cone is regenerated from REPO's current sources, also for checks that
+    # do not report on a translator themselves (write-if-changed: nothing is rebuilt when the source did not change)
+    gen_needed = sorted({GEN_TRANSLATOR[os.path.basename(f)[:-2]] for f in files
+                         if f.startswith("Gen/") and os.path.basename(f)[:-2] in GEN_TRANSLATOR})
+    if gen_needed:
+        with Lock("gen"):
+            tr = run_translators(which=gen_needed)
+        res["generated"] = {k: {"ok": v.get("ok"), "digest": v.get("digest")} for k, v in tr.items()}
     names, bad = count_obligations([f for f in files if not f.startswith("Gen/")])
     res["obligations"] = len(names)
     res["forbidden"] = bad
